@@ -149,7 +149,9 @@ def fence_patterns(S, cap):
         while l < len(a) and l < len(b) and a[l] == b[l]:
             l += 1
         pairs.append((l, a, b))
-    # long common prefixes first (VByte boundaries), then evenly spread
+    # long common prefixes first (VByte boundaries), then evenly spread; prefixes of many KiB are left out
+    # (patterns of 16 KiB make the trie-based kinds take minutes under the sanitizer)
+    pairs = [x for x in pairs if x[0] <= 300]
     pairs.sort(key=lambda x: -x[0])
     keep = pairs[:max(2, cap // 2)] + pairs[max(2, cap // 2)::max(1, len(pairs) // max(1, cap // 2))]
     for l, a, b in keep:
@@ -278,7 +280,7 @@ def substrings_of(rng, S, cap):
         l = 0
         while l < len(a) and l < len(b) and a[l] == b[l]:
             l += 1
-        if l >= 33 and tw < 3:
+        if 33 <= l <= 300 and tw < 3:
             extra += [a[:l + 1], b[:l + 1], a[l - 33:l + 1], b[l - 33:l + 1]]
             m = min(len(a), len(b))
             if m > l + 1:
